@@ -25,7 +25,7 @@ class AV:
                  'label', 'pv', 'orth', 'lg', 'deg', 'unit', 'taint', 'lay',
                  'fn', 'env', 'self_', 'attrs', 'ext', 'keys', 'cls', 'src',
                  'note', 'uninit', 'maybe_none', 'nonneg', 'normed', 'idx', 'lo', 'nonlin',
-                 'delta', 'cnt')
+                 'delta', 'cnt', 'doc')
 
     def __init__(self, k, **kw):
         self.k = k
@@ -68,6 +68,9 @@ class AV:
         # number of mode-index terms summed into every entry, as a fraction
         # (num, den) of size polynomials; None = not tracked
         self.cnt = None
+        # 'float:<param>': value of a public parameter documented as float
+        # (and not as int) -- converting it to an integer loses information
+        self.doc = None
         for a, v in kw.items():
             setattr(self, a, v)
         if k in ('list', 'dict', 'obj') and self.oid is None:
@@ -310,6 +313,12 @@ def join(a, b):
         r.maybe_none = a.maybe_none or b.maybe_none
         r.nonneg = a.nonneg and b.nonneg
         r.normed = a.normed and b.normed
+        # row distinctness: 'distinct' must hold on both sides, 'stacked'
+        # (rows may repeat) on either
+        if a.note == b.note and a.note in ('distinct', 'stacked'):
+            r.note = a.note
+        elif {a.note, b.note} == {'distinct', 'stacked'}:
+            r.note = 'stacked'
         _join_facets(r, a, b)
         return r
     if k in ('list', 'tuple'):
